@@ -70,5 +70,53 @@ Proof.
   - intros o [<-|[<-|[]]]; cbn [oo_f].
     + apply f_count_window_local; auto.
     + eapply window_local_mono; [| |apply f_copy_window_local]; lia.
-  - apply (f_row_same_cuts [h_count kl kr; (fun r _ => re r - rt r)]).
+  - apply same_cuts_nested. apply (f_row_same_cuts [h_count kl kr; (fun r _ => re r - rt r)]).
+Qed.
+
+(* ---- nested cuts: a per-row output together with the group former ---- *)
+Lemma covered_of_row G X r x : In r X -> straddles r x -> covered G X x.
+Proof.
+  induction X as [|a X IH]; intros Hin Hs; [destruct Hin|].
+  apply covered_cons. destruct Hin as [<-|Hin]; [left; exact Hs|right; right; apply IH; auto].
+Qed.
+
+Lemma row_cut_group_cut h G I x : dsp I -> straddled (f_row h I) x -> straddled (f_group G I) x.
+Proof.
+  intros Hd Hs. apply straddled_f_row in Hs as (r & Hr & Hsr).
+  apply (group_covered G I x Hd). apply (covered_of_row G I r x Hr Hsr).
+Qed.
+
+Lemma nested_pair f1 f2 :
+  (forall I x, dsp I -> straddled (f1 I) x -> straddled (f2 I) x) -> nested_cuts [f1; f2] /\ nested_cuts [f2; f1].
+Proof.
+  intros H. split; intros a b [<-|[<-|[]]] [<-|[<-|[]]]; auto.
+Qed.
+
+(* the dual-output plugins of the harness that combine the neighbour count with the group former, in
+   either order: cache_beyond needs a second pass whenever the count output can be cut later than the
+   group output *)
+Theorem dual_count_group_chunking_independent kl kr G (group_first : bool) wtuple wl wr d1 k1 d2 k2 orun otgt sw
+        R a b dt run cs :
+  0 <= kl -> 0 <= kr -> kl <= 2 * wl -> kr <= 2 * wr -> 0 <= G -> G <= 2 * wl -> G <= 2 * wr ->
+  dsp R -> chunking_of R a b dt run cs ->
+  let oc := mk_ow_out (f_count kl kr) d1 k1 in
+  let og := mk_ow_out (f_group G) d2 k2 in
+  let outs := if group_first then [og; oc] else [oc; og] in
+  exists items,
+    ow_iter (mk_ow_params wtuple wl wr outs orun otgt sw) cs = Ok items /\
+    forall k o, nth_error outs k = Some o ->
+      flat_map crows (out_stream k items) = oo_f o R /\
+      contiguous_from a (out_stream k items) /\ last_end a (out_stream k items) = b /\
+      Forall wf (out_stream k items).
+Proof.
+  intros Hkl Hkr H1 H2 HG HG1 HG2 HR Hch oc og outs.
+  assert (Hwc : window_local (Z.max kl G) (Z.max kr G) (f_count kl kr)).
+  { eapply window_local_mono; [| |apply f_count_window_local; auto]; lia. }
+  assert (Hwg : window_local (Z.max kl G) (Z.max kr G) (f_group G)).
+  { eapply window_local_mono; [| |apply f_group_window_local; auto]; lia. }
+  destruct (nested_pair (f_count kl kr) (f_group G) (fun I x Hd => row_cut_group_cut (h_count kl kr) G I x Hd)) as [N1 N2].
+  apply (overlap_multi_correct wtuple wl wr (Z.max kl G) (Z.max kr G) outs orun otgt sw R a b dt run cs); auto; try lia.
+  - unfold outs. destruct group_first; cbn [length]; lia.
+  - unfold outs. destruct group_first; intros o [<-|[<-|[]]]; cbn [oo_f oc og]; auto.
+  - unfold outs. destruct group_first; cbn [map oo_f oc og]; auto.
 Qed.
